@@ -23,7 +23,9 @@ CONSTANTS N, Byz, MaxView, MaxBlocksPerView, Ruleset,
           Weak,        \* "none" or the name of a weakened rule
           Prefix,      \* number of initial views that ran fault-free (everybody voted for one chain)
           EquivViews,  \* views in which the (Byzantine) leader may propose more than one block
-          DumpEvery    \* 0 = no dump; k > 0: print about one in k of the complete behaviours of the model
+          DumpEvery,   \* 0 = no dump; k > 0: print about one in k of the complete behaviours of the model
+          GroupVotes   \* TRUE: a block is voted for by a certifying set of honest replicas at once or not at all (a restriction of
+                       \* the search used to reach longer attacks; nothing is claimed to be exhaustive under it)
 Replicas == 1..N
 Honest == Replicas \ Byz
 F == (N - 1) \div 3
@@ -104,10 +106,22 @@ Spec == Init /\ [][Next]_vars
 \* disables later votes, so it adds no reachable (blocks, votes).  Agreement and OneVotePerView are monotone
 \* (a violation persists), hence checking them on NextOrdered decides them for Spec within the same bounds.
 \* Honest leaders propose once per view: equivocation (k > 1) is allowed in EquivViews only.
+\* all replicas of S vote for id in one step (in increasing order of their ids)
+RECURSIVE VoteAll(_, _, _, _, _, _)
+VoteAll(S, id, vs, lk, lv, h) ==
+    IF S = {} THEN votes' = vs /\ lock' = lk /\ lastVoted' = lv /\ hist' = h
+    ELSE LET r == CHOOSE x \in S : \A y \in S : x <= y IN
+         /\ (IF Weak = "revote" THEN ViewOf(id) >= lv[r] ELSE ViewOf(id) > lv[r])
+         /\ SafeToVote(r, id)                       \* (locks of different replicas are independent: the unprimed lock is the right one)
+         /\ VoteAll(S \ {r}, id, [vs EXCEPT ![r] = @ \cup {id}], [lk EXCEPT ![r] = NewLock(r, id)], [lv EXCEPT ![r] = ViewOf(id)],
+                    Append(h, <<"V", r, id[1], id[2]>>))
+GroupVote(S, id) == /\ id \in Ids /\ Cardinality(S) + Cardinality(Byz) >= Q
+                    /\ VoteAll(S, id, votes, lock, lastVoted, hist) /\ UNCHANGED blocks
 NextOrdered ==
     \/ \E k \in 1..MaxBlocksPerView : \E p \in Ids \cup {GenesisId} :
             (k = 1 \/ cur \in EquivViews) /\ Propose(cur, p, k) /\ UNCHANGED cur
-    \/ \E r \in Honest : \E id \in Ids : ViewOf(id) = cur /\ Vote(r, id) /\ UNCHANGED cur
+    \/ (~GroupVotes /\ \E r \in Honest : \E id \in Ids : ViewOf(id) = cur /\ Vote(r, id) /\ UNCHANGED cur)
+    \/ (GroupVotes /\ \E S \in SUBSET Honest : \E id \in Ids : ViewOf(id) = cur /\ GroupVote(S, id) /\ UNCHANGED cur)
     \/ (cur < MaxView /\ cur' = cur + 1 /\ UNCHANGED <<blocks, votes, lock, lastVoted, hist>>)
 SpecOrdered == Init /\ [][NextOrdered]_vars
 
